@@ -217,7 +217,7 @@ def ipy_coq(ops):
 def front_ends(R, root, env):
     """the pytest option and the IPython magic, each against an independent reference and the Coq model"""
     from concurrent.futures import ThreadPoolExecutor
-    npt, nip = (90, 90) if R.thorough else (14, 12)
+    npt, nip = (250, 250) if R.thorough else (14, 12)
     pyt = [dict(c) for c in PYT_CATALOGUE] + [gen_pytest(R.rng) for _ in range(npt)]
     ipy = list(IPY_CATALOGUE) + [gen_ipython(R.rng) for _ in range(nip)]
     def run(mode, payload):
@@ -276,7 +276,7 @@ def expand_mods(mods):
 def bytecode_pairs(R, env):
     """two runs over one forest WITH bytecode caching: what the second run loads must not depend on the first"""
     from concurrent.futures import ThreadPoolExecutor
-    n = 40 if R.thorough else 8
+    n = 150 if R.thorough else 8
     pairs = [([["install", ["foo.bar"], "A", 0, True], ["import", "foo.bar.qux"]], [["install", ["foo.a"], "A", 0, True], ["import", "foo.a"], ["import", "foo.bar.qux"]]),
              ([["install", ["zed"], "B", 0, True], ["import", "zed"]], [["install", ["foo_bar"], "B", 0, True], ["import", "foo_bar"], ["import", "zed"]]),
              ([["install", ["foo_bar"], "B", 0, True], ["import", "foo_bar"]], [["install", ["zed"], "B", 0, True], ["import", "zed"]])]
@@ -312,7 +312,7 @@ def bytecode_pairs(R, env):
 def main():
     R = vf.Report(PID)
     proved = R.proof_step()
-    n = 700 if R.thorough else 55
+    n = 2500 if R.thorough else 55
     hists = list(CATALOGUE) + [gen_history(R.rng) for _ in range(n)]
     root = tempfile.mkdtemp(prefix="vfc11")
     try:
